@@ -10,7 +10,10 @@ N == Len(Rec)
 VARIABLES l, phase, bad
 vars == <<l, phase, bad>>
 InRange(e) == WLe(WAdd(e.pos, WOfInt(e.n, 5)), WShl(TotalBlocks(e.variant), 6))
-Check(e) == IF InRange(e)
+\* "bigcall": summary of one apply call over more than 2^32 bytes (its keystream windows are ordinary ks events): the position
+\* afterwards is start + len, and applying the same stream again in pieces restored the buffer
+CheckBig(e) == e.res = "ok" /\ e.rezero /\ e.pos_after = WAdd(e.start, e.len)
+Check(e) == IF e.ev = "bigcall" THEN CheckBig(e) ELSE IF InRange(e)
             THEN /\ e.res = "ok" /\ e.guard /\ Len(e.after) = e.n
                  /\ e.after = BXor(e.before, Keystream(e.variant, e.key, e.nonce, e.pos, e.n))
             ELSE e.res = "apply-err" /\ e.guard /\ e.after = e.before
